@@ -132,9 +132,7 @@ func RunC02(tier string) int {
 		if zeroBuild && partialBuild {
 			run.Nontrivial(s.Shape() + "|" + strings.Join(names, ","))
 		}
-		if i < 2 {
-			run.Sample(map[string]any{"case": i, "shape": s.Shape(), "mode": gcfg.LoadOutputs, "hash": gcfg.HashAlgorithm, "history": env.Log})
-		}
+		run.Sample(map[string]any{"case": i, "shape": s.Shape(), "mode": gcfg.LoadOutputs, "hash": gcfg.HashAlgorithm, "history": env.Log})
 	})
 	run.Assume("forced-execution reasons are model inputs; states the documented rules do not fix (e.g. after an output-less dependency changed) are 'may' and not judged")
 	_ = grog.Config{}
